@@ -119,3 +119,176 @@ theorem assign_error_reported (c : Cfg) (tr : Store) (ps : List PartIn) (h : c.a
   · simp only []; split <;> simp [h]
 
 end Firebolt.C06
+
+namespace Firebolt.C06
+open Firebolt Firebolt.Offsets Firebolt.Tracker
+
+/-! ### bridge: the model's observation of a whole assignment satisfies the Spec oracle -/
+
+theorem get?_none_of_not_mem {α} (m : AList α) (k : Int) (h : k ∉ m.map (·.1)) : m.get? k = none := by
+  induction m with
+  | nil => rfl
+  | cons kv rest ih =>
+    obtain ⟨k', v⟩ := kv
+    simp only [List.map_cons, List.mem_cons, not_or] at h
+    have : ¬ k' = k := fun e => h.1 e.symm
+    simp [AList.get?, this, ih h.2]
+
+theorem set_absent {α} (m : AList α) (k : Int) (v : α) (h : k ∉ m.map (·.1)) : m.set k v = m ++ [(k, v)] := by
+  induction m with
+  | nil => rfl
+  | cons kv rest ih =>
+    obtain ⟨k', v'⟩ := kv
+    simp only [List.map_cons, List.mem_cons, not_or] at h
+    have : ¬ k' = k := fun e => h.1 e.symm
+    simp [AList.set, this, ih h.2]
+
+/-- per-partition range facts extracted from `inScope` -/
+def PartOk (cfg : Cfg) (pi : PartIn) : Prop := InRange cfg.maxLag pi.committed pi.high
+
+theorem inScope_parts (cfg : Cfg) (ps : List PartIn) (h : inScope cfg ps = true) :
+    (1 ≤ cfg.maxRecords ∧ cfg.maxRecords < 2^63) ∧ (∀ pi ∈ ps, PartOk cfg pi) ∧ (ps.map (·.p)).Nodup := by
+  unfold inScope at h
+  simp only [Bool.and_eq_true, decide_eq_true_eq, List.all_eq_true] at h
+  obtain ⟨⟨⟨⟨⟨h1, h2⟩, h3⟩, h4⟩, h5⟩, h6⟩ := h
+  refine ⟨⟨h3, h4⟩, ?_, by simpa using h6⟩
+  intro pi hpi
+  obtain ⟨⟨⟨a, b⟩, c'⟩, d⟩ := h5 pi hpi
+  exact ⟨h1, h2, a, b, c', d⟩
+
+/-- what `fileReq` does to a tracker that has no entry for the partition yet -/
+theorem fileReq_fresh (cfg : Cfg) (tr : Store) (pi : PartIn) (hm : 1 ≤ cfg.maxRecords ∧ cfg.maxRecords < 2^63)
+    (hok : PartOk cfg pi) (hfresh : pi.p ∉ tr.map (·.1)) :
+    fileReq cfg tr pi =
+      match specRequest cfg pi with
+      | none => (tr, [])
+      | some r => (tr ++ [(pi.p, [⟨r.1, r.2⟩])], [(pi.p, [⟨r.1, r.2⟩])]) := by
+  unfold fileReq
+  rw [request_exact cfg.maxLag pi.high pi.committed cfg.recEnabled hok]
+  unfold specRequest specStart
+  obtain ⟨a1, a2, a3, a4, a5, a6⟩ := hok
+  by_cases hre : cfg.recEnabled = true
+  · by_cases hlag : cfg.maxLag < pi.high - specStored pi.committed
+    · have hnle : ¬ pi.high - specStored pi.committed ≤ cfg.maxLag := by omega
+      have hlt : specStored pi.committed < pi.high - cfg.maxLag := by omega
+      simp only [hre, hlag, and_self, if_true, hnle, if_false, Bool.true_and, decide_eq_true_eq, hlt]
+      have ht := trim_exact cfg.maxRecords (specStored pi.committed) (pi.high - cfg.maxLag) hm.1 hm.2 a3 (by omega) (by omega)
+      rw [ht]
+      simp only [Tracker.add, get?_none_of_not_mem tr pi.p hfresh, Option.getD_none]
+      have : addL [] (max (specStored pi.committed) (pi.high - cfg.maxLag - cfg.maxRecords)) (pi.high - cfg.maxLag)
+          = [⟨max (specStored pi.committed) (pi.high - cfg.maxLag - cfg.maxRecords), pi.high - cfg.maxLag⟩] := by
+        simp [addL]
+      rw [this, set_absent tr pi.p _ hfresh]
+    · have hle : pi.high - specStored pi.committed ≤ cfg.maxLag := by omega
+      have hnlt : ¬ specStored pi.committed < specStored pi.committed := by omega
+      simp [hre, hlag, hle, hnlt]
+  · have hf : cfg.recEnabled = false := by simpa using hre
+    simp [hf]
+
+def specEntries (cfg : Cfg) (ps : List PartIn) : Store :=
+  ps.filterMap (fun pi => (specRequest cfg pi).map (fun r => (pi.p, [(⟨r.1, r.2⟩ : Req)])))
+
+theorem specEntries_keys (cfg : Cfg) (ps : List PartIn) : ∀ k ∈ (specEntries cfg ps).map (·.1), k ∈ ps.map (·.p) := by
+  intro k hk
+  simp only [specEntries, List.mem_map, List.mem_filterMap] at hk
+  obtain ⟨kv, ⟨pi, hpi, hsome⟩, rfl⟩ := hk
+  cases hr : specRequest cfg pi with
+  | none => rw [hr] at hsome; simp at hsome
+  | some r => rw [hr] at hsome; simp at hsome; subst hsome; exact List.mem_map.2 ⟨pi, hpi, rfl⟩
+
+/-- the walk over an error-free, in-range assignment of distinct, not yet tracked partitions -/
+theorem walk_ok (cfg : Cfg) (ps : List PartIn) : ∀ (tr : Store),
+    (1 ≤ cfg.maxRecords ∧ cfg.maxRecords < 2^63) → (∀ pi ∈ ps, PartOk cfg pi) → (∀ pi ∈ ps, pi.werr = false) →
+    (ps.map (·.p)).Nodup → (∀ pi ∈ ps, pi.p ∉ tr.map (·.1)) →
+    (walk cfg tr ps).1 = some (ps.map (fun pi => (pi.p, specStart cfg.maxLag pi))) ∧
+    (walk cfg tr ps).2.1 = tr ++ specEntries cfg ps ∧
+    (walk cfg tr ps).2.2.length = (specEntries cfg ps).length := by
+  induction ps with
+  | nil => intro tr _ _ _ _ _; simp [walk, specEntries]
+  | cons pi rest ih =>
+    intro tr hm hok hw hnd hfresh
+    have hpi := hok pi (List.mem_cons_self ..)
+    have hwpi := hw pi (List.mem_cons_self ..)
+    have hfr := fileReq_fresh cfg tr pi hm hpi (hfresh pi (List.mem_cons_self ..))
+    simp only [List.map_cons, List.nodup_cons] at hnd
+    have hstart : (startOffset cfg.maxLag cfg.recEnabled pi.committed pi.high).1 = specStart cfg.maxLag pi := by
+      rw [start_exact cfg.maxLag pi.high pi.committed cfg.recEnabled hpi]; rfl
+    -- the tracker after filing this partition's request still has no entry for the remaining partitions
+    have hfresh' : ∀ q ∈ rest, q.p ∉ (fileReq cfg tr pi).1.map (·.1) := by
+      intro q hq
+      have hq1 := hfresh q (List.mem_cons_of_mem _ hq)
+      have hne : q.p ≠ pi.p := fun e => hnd.1 (e ▸ List.mem_map.2 ⟨q, hq, rfl⟩)
+      rw [hfr]
+      cases specRequest cfg pi with
+      | none => exact hq1
+      | some r => simp only [List.map_append, List.map_cons, List.map_nil, List.mem_append, List.mem_singleton, not_or]; exact ⟨hq1, hne⟩
+    obtain ⟨i1, i2, i3⟩ := ih (fileReq cfg tr pi).1 hm (fun q hq => hok q (List.mem_cons_of_mem _ hq))
+      (fun q hq => hw q (List.mem_cons_of_mem _ hq)) hnd.2 hfresh'
+    simp only [walk, hwpi, Bool.false_eq_true, if_false, i1, i2, i3, hstart, Option.map_some, List.map_cons, List.length_append]
+    refine ⟨trivial, ?_, ?_⟩
+    · rw [hfr]
+      cases hr : specRequest cfg pi with
+      | none => simp [specEntries, hr]
+      | some r => simp [specEntries, hr]
+    · rw [hfr]
+      cases hr : specRequest cfg pi with
+      | none => simp [specEntries, hr]
+      | some r => simp [specEntries, hr]; omega
+
+/-- **bridge**: for every assignment inside the statement's quantifier — any partitions, committed offsets, watermarks,
+lag cap, record cap, recovery on or off, any placement of broker errors — what the model of `assignPartitions` makes
+observable satisfies the Spec predicate that also judges the real code -/
+theorem spec_holds (cfg : Cfg) (ps : List PartIn) (h : inScope cfg ps = true) : spec cfg ps (obsOf (assign cfg [] ps)) = none := by
+  obtain ⟨hm, hok, hnd⟩ := inScope_parts cfg ps h
+  unfold spec
+  by_cases hq : (cfg.cerr || ps.any (·.werr)) = true
+  · -- a query fails
+    have hq' : cfg.cerr = true ∨ ∃ pi ∈ ps, pi.werr = true := by
+      simp only [Bool.or_eq_true, List.any_eq_true] at hq
+      rcases hq with h1 | ⟨pi, h1, h2⟩
+      · exact Or.inl h1
+      · exact Or.inr ⟨pi, h1, h2⟩
+    obtain ⟨e1, e2, e3⟩ := query_error_aborts cfg [] ps hq'
+    simp [hq, obsOf, e1, e2, e3]
+  · simp only [hq, Bool.false_eq_true, if_false]
+    have hc : cfg.cerr = false := by
+      cases hcc : cfg.cerr with
+      | false => rfl
+      | true => simp [hcc] at hq
+    have hw : ∀ pi ∈ ps, pi.werr = false := by
+      intro pi hpi
+      cases hww : pi.werr with
+      | false => rfl
+      | true => exact absurd (by simp only [Bool.or_eq_true, List.any_eq_true]; exact Or.inr ⟨pi, hpi, hww⟩) hq
+    obtain ⟨w1, w2, w3⟩ := walk_ok cfg ps [] hm hok hw hnd (fun _ _ => by simp)
+    by_cases ha : cfg.aerr = true
+    · obtain ⟨e1, e3⟩ := assign_error_reported cfg [] ps ha
+      simp [ha, obsOf, e1, e3]
+    · have haf : cfg.aerr = false := by simpa using ha
+      have hassign : assign cfg [] ps =
+          ⟨.assigned (ps.map (fun pi => (pi.p, specStart cfg.maxLag pi))), true,
+           if cfg.recEnabled then some (ps.map (fun pi => (pi.p, specStart cfg.maxLag pi))) else none,
+           [] ++ specEntries cfg ps, (walk cfg [] ps).2.2⟩ := by
+        unfold assign
+        simp only [hc, Bool.false_eq_true, if_false, w1, haf, w2]
+      rw [hassign]
+      simp only [haf, Bool.false_eq_true, if_false, obsOf]
+      have hneg : (ps.map (fun pi => (pi.p, specStart cfg.maxLag pi))).any (fun a => decide (a.2 < 0)) = false := by
+        rw [List.any_eq_false]
+        intro a ha'
+        obtain ⟨pi, hpi, rfl⟩ := List.mem_map.1 ha'
+        have hb := start_bounds cfg.maxLag pi.high pi.committed cfg.recEnabled (hok pi hpi)
+        rw [start_exact cfg.maxLag pi.high pi.committed cfg.recEnabled (hok pi hpi)] at hb
+        have : specStart cfg.maxLag pi = if pi.high - specStored pi.committed ≤ cfg.maxLag then specStored pi.committed else pi.high - cfg.maxLag := rfl
+        simp only [this, decide_eq_true_eq]; omega
+      have htr : sortByKey ((([] : Store) ++ specEntries cfg ps).map (fun kv => (kv.1, kv.2.map (fun q => (q.fromO, q.toO))))) = specTracker cfg ps := by
+        unfold specTracker specEntries
+        congr 1
+        simp only [List.nil_append, List.map_filterMap]
+        congr 1
+        funext pi
+        cases specRequest cfg pi <;> simp
+      simp only [htr, hneg]
+      cases cfg.recEnabled <;> simp
+
+end Firebolt.C06
